@@ -3,6 +3,8 @@ package harness
 import (
 	"encoding/binary"
 	"fmt"
+	"os"
+	"path/filepath"
 
 	txfile "github.com/elastic/go-txfile"
 
@@ -17,7 +19,7 @@ func init() {
 		Rule: "each run = one seeded committed history (all page sizes, some re-based to txids around 2^64 and 2^63); after a seeded commit n an image is taken (S_n and S_{n-1} both intact). Evaluations = damaged images opened by the real engine: for each of the two header slots all 672 single-bit flips of the 84 header bytes, all byte-prefix tears (prefix of the slot content followed by the slot's previous content, and followed by zeros), zeroed slot, 64 random multi-byte scribbles (thorough; 24 quick), bit flips in the rest of the header page (must change nothing), and sampled pairs with both slots damaged. Oracle: newest slot damaged => Open succeeds and state == S_{n-1} (by header txid and full content); older slot damaged => S_n; damage outside the 84 bytes => S_n; both damaged => Open returns an error; never a panic. A damaged slot that still validates (checksum collision or no-op tear) is skipped and counted. Non-trivial = damaged image whose damaged slot no longer validates; distinct = (run, slot, kind, offset, bit/len).",
 		Real: defaultReal, Stub: defaultStub, Assume: append(append([]string{}, defaultAssume...), "header layout and FNV-32a checksum over the first 80 bytes as documented in layout.go (harness recomputes validity independently)"),
 		FaultKinds: []string{"stored header bit flip", "torn header write (byte prefix)", "zeroed header", "random multi-byte damage", "both headers damaged"},
-		Body: c16Body,
+		Body:       c16Body,
 	})
 }
 
@@ -28,10 +30,10 @@ func headerValid(h []byte) bool {
 }
 
 type c16img struct {
-	img   []byte
-	prev  []byte // image after the previous commit (slot contents before the last header write)
-	sn    *State // state of the newest header
-	sp    *State // state of the older header
+	img  []byte
+	prev []byte // image after the previous commit (slot contents before the last header write)
+	sn   *State // state of the newest header
+	sp   *State // state of the older header
 }
 
 func c16Body(e *Env) {
@@ -98,6 +100,15 @@ func c16Body(e *Env) {
 	}
 	ps := c.Cfg.PageSize
 	img := pick.img
+	if !c.Explicit && c.Damage == nil && rng.Intn(40) == 0 {
+		c.Cfg.Variant2 = 12
+	}
+	if c.Cfg.Variant2 == 12 && c.Damage == nil {
+		c16BigFile(e, img, ps, rng)
+		if e.Failed() {
+			return
+		}
+	}
 	// which slot is the newest?
 	t0 := binary.LittleEndian.Uint64(img[32:])
 	t1 := binary.LittleEndian.Uint64(img[ps+32:])
@@ -311,5 +322,34 @@ func applyDamage(img, prev []byte, ps int, dm *Damage) {
 	}
 	if dm.Slot2 != nil {
 		applyDamage(img, prev, ps, dm.Slot2)
+	}
+}
+
+// c16BigFile: header handling must not depend on the file being small. The
+// image is written to a real (sparse) file of 2-4 GiB with both headers
+// damaged; Open (real osfs) must return an error. A loop that never ends is
+// reported by the run monitor as a hang.
+func c16BigFile(e *Env, img []byte, ps int, rng *simsched.Rand) {
+	dir, err := os.MkdirTemp("", "verif-c16-")
+	if err != nil {
+		return // no temp space: skip the probe
+	}
+	defer os.RemoveAll(dir)
+	path := filepath.Join(dir, "big.dat")
+	work := append([]byte(nil), img...)
+	work[80] ^= 0x01    // checksum of slot 0
+	work[ps+83] ^= 0x80 // checksum of slot 1
+	size := []int64{1<<31 + int64(ps) + 84, 1<<32 + 2*int64(ps), 3 << 30}[rng.Intn(3)]
+	if os.WriteFile(path, work, 0o600) != nil || os.Truncate(path, size) != nil {
+		return
+	}
+	e.Probe("big_sparse_file_both_damaged")
+	var f *txfile.File
+	if e.Guard("C16", fmt.Sprintf("Open of a %d byte file with both headers damaged", size), func() { f, err = txfile.Open(path, 0o600, txfile.Options{}) }) {
+		return
+	}
+	if err == nil {
+		f.Close()
+		e.Fail("C16", "both-damaged-opened", "Open of a %d byte file succeeded although no header is intact", size)
 	}
 }
